@@ -41,7 +41,8 @@ class Gen:
         if r < 0.5: return lit(self.rng.choice(LITS))
         if r < 0.72: return ref(self.rng.choice(["Ident", "Int", "Ident", "Int", "Comment"] if getattr(self, "name_elided", True) else ["Ident", "Int"]))
         if r < 0.97: return lit(self.rng.choice(["a", "b", "7", "(", "a", "b"]), self.rng.choice(["Ident", "Ident", "Int", "Punct"]))
-        return lit("", self.rng.choice(["", "Ident", "Int"]))
+        # the unconstrained empty literal matches ANY token, elided ones included: it "names" elided types implicitly
+        return lit("", self.rng.choice(["", "Ident", "Int"] if getattr(self, "name_elided", True) else ["Ident", "Int"]))
 
     def newfield(self, kind, arg=""):
         name = "F%d" % len(self.fields)
@@ -126,7 +127,8 @@ class Gen:
 
 def nullable(n):
     op = n["op"]
-    if op in ("lit", "ref", "neg", "prod", "union"): return False  # prods are made non-nullable below
+    if op == "lit": return n["s"] == "" and n["t"] == ""   # "" matches EOF without consuming
+    if op in ("ref", "neg", "prod", "union"): return False  # prods are made non-nullable below
     if op == "look": return True
     if op == "seq": return all(nullable(k) for k in n["kids"])
     if op == "alt": return any(nullable(k) for k in n["kids"])
